@@ -28,6 +28,8 @@ partial def decX (j : Json) : X :=
   | "switchCase" => .switchCase (decX (jget j "c")) (jnatOpt j "sel") (kids "as")
   | "coalesce" => .coalesce (kids "as") (flags "nulls")
   | "defCalls" => .defCalls (decX (jget j "b")) (flags "sl") (kids "os")
+  | "raise" => .raise_ (kids "ks")
+  | "lazy" => .lazy (kids "b") (kids "d")
   | _ => .leaf
 
 def xsJ (j : Json) (k : String) : List X := (jarr j k).map decX
@@ -68,9 +70,11 @@ partial def evalPipe (j : Json) : List Nat × PerElem.Strm :=
     else listSrc (jnat s "n")
   (jarr j "stages").foldl go (trace (decX (jget s "x")), src)
 
-/-- `{"xs":[X...],"pipes":[pipe...]}` -> `{"traces":[[ids]...],"plogs":[[ids]...]}` -/
+/-- `{"xs":[X...],"pipes":[pipe...]}` -> `{"traces":[[ids]...],"runs":[{"log":[ids],"failed":bool}...],"plogs":[[ids]...]}`
+    (`traces`: the log if no call failed; `runs`: the log up to the first failing call that is reached) -/
 def handle (req : Json) : Json :=
   jo [("traces", jl ((jarr req "xs").map fun x => jl ((trace (decX x)).map jn))),
+      ("runs", jl ((jarr req "xs").map fun x => let r := run (decX x); jo [("log", jl (r.1.map jn)), ("failed", jb r.2)])),
       ("plogs", jl ((if jhas req "pipes" then jarr req "pipes" else []).map fun p =>
         let r := evalPipe p
         jl ((r.1 ++ r.2.log).map jn)))]
